@@ -1,4 +1,4 @@
-//@@ unit c02_logfile properties=C02 noverus bounded=logfile.every_append_leaves_the_previous_file_content_as_an_exact_prefix_whichever_handle_writes
+//@@ unit c02_logfile properties=C02,C01 noverus bounded=logfile.every_append_leaves_the_previous_file_content_as_an_exact_prefix_whichever_handle_writes
 // This unit carries no Verus obligations: what EventLog::new decides - how the file is opened - is a property of the operating system's
 // file object (O_APPEND: every write lands at the current end of file, whoever else holds the file open), which no contract on the Rust
 // side states. Its clause is a BOUNDED stand-in run by units/c02_logfile/witness.rs: the real EventLog::new and EventLog::append on the
